@@ -237,13 +237,14 @@ EMPTY_OBS = {"exit": -1, "compliant": False, "files": [], "missing": [], "bad": 
              "counts": {"total": -1, "withcop": -1, "withlic": -1}, "crash": ""}
 
 
-def lint_obs(root: Path, args: list | None = None, cwd=None, faults=(), runner=None) -> dict:
+def lint_obs(root: Path, args: list | None = None, cwd=None, faults=(), runner=None, env=None) -> dict:
     """Run `reuse [--root root] lint --json` and project its JSON."""
     set_faults(faults)
     try:
         run = runner or core.run_reuse
+        kw = {"env": env} if env else {}
         r = run([*(args if args is not None else ["--root", str(root), "--no-multiprocessing"]), "lint", "--json"],
-                cwd=cwd)
+                cwd=cwd, **kw)
     finally:
         set_faults(())
     obs = json.loads(json.dumps(EMPTY_OBS))
@@ -353,7 +354,15 @@ def run_project_case(case: dict) -> dict:
             env = dict(os.environ, GIT_CONFIG_GLOBAL="/dev/null", GIT_CONFIG_SYSTEM="/dev/null", HOME=str(d))
             subprocess.run(["git", "init", "-q"], cwd=root, env=env, check=True, capture_output=True)
             subprocess.run(["git", "add", "-A"], cwd=root, env=env, check=True, capture_output=True)
-        obs = lint_obs(root, faults=m["faults"])
+        if case.get("locale_c") and not m["faults"]:
+            # the same project linted by an interpreter whose locale is not UTF-8; every REUSE.toml carries a non-ASCII comment
+            for t in root.rglob("REUSE.toml"):
+                if t.is_file() and not t.is_symlink():
+                    t.write_text(t.read_text(encoding="utf-8") + "\n# caf\u00e9 \u00a9 \u5c71\u7530\n", encoding="utf-8")
+            obs = lint_obs(root, runner=core.run_reuse_subprocess,
+                           env={"LC_ALL": "C", "LANG": "C", "PYTHONUTF8": "0", "PYTHONCOERCECLOCALE": "0"})
+        else:
+            obs = lint_obs(root, faults=m["faults"])
         return {"tid": case["tid"], "p": p, "checks": case["checks"], "label": case.get("label", ""), "obs": obs}
     finally:
         shutil.rmtree(d, ignore_errors=True)
